@@ -396,9 +396,10 @@ Qed.
 Lemma lvl_refl xs : list_eqb (list_eqb val_eqb) xs xs = true.
 Proof.
   assert (V : forall v, val_eqb v v = true).
-  { fix IH 1. intros [|z|b|s|l]; cbn; try reflexivity.
+  { fix IH 1. intros [|z|b|s|l|i d]; cbn; try reflexivity.
     - apply Z.eqb_refl. - apply booleqb_eq; reflexivity. - apply beqb_refl.
-    - induction l as [|a l IHl]; [reflexivity|]. rewrite IH. cbn. exact IHl. }
+    - induction l as [|a l IHl]; [reflexivity|]. rewrite IH. cbn. exact IHl.
+    - rewrite Z.eqb_refl. cbn. induction d as [|a d IHd]; cbn; [reflexivity|]. now rewrite beqb_refl. }
   assert (L : forall l, list_eqb val_eqb l l = true).
   { induction l as [|a l IHl]; cbn; [reflexivity|]. now rewrite V, IHl. }
   induction xs as [|a l IHl]; cbn; [reflexivity|]. now rewrite L, IHl.
@@ -510,4 +511,12 @@ Lemma ptr_map_legacy_wit :
 Proof.
   exists w_ptr_map. destruct legacy_ptr_map_refuted as (A & B & C & _).
   split; [exact A|]. split; [rewrite B; discriminate | exact C].
+Qed.
+
+(* a dictionary-encoded cell binds the entry its INDEX selects *)
+Lemma dict_cell_indexed ti tv o i d s :
+  (0 <= i)%Z -> nth_error d (Z.to_nat i) = Some s ->
+  conv_leaf KString (TDict ti tv o) (VD i d) = Some (VS s).
+Proof.
+  intros Hi Hn. cbn. destruct (i <? 0)%Z eqn:E; [lia|]. now rewrite Hn.
 Qed.
